@@ -159,9 +159,21 @@ async def episode(loop, cfg, lost_by_day, n_days, announce="after") -> dict:
     EB.random.uniform = lambda a, b: (a + b) / 2            # the poll jitter: deterministic
     ctl = Controller(loop, cfg, lost_by_day)
     hello = f" I --- {CTL} --:------ {CTL} 1F09 003 FF0532"     # the controller announces itself
-    rig = gwrig.Rig(loop, responder=ctl.respond, disable_discovery=False, config={"enable_eavesdrop": False},
+    mute = 0.0
+    if announce.startswith("mute:"):
+        # the stick is deaf and dumb for so many seconds, from the moment discovery starts (nothing sent is echoed or answered)
+        mute, announce = float(announce[5:]), "after"
+    muted = [0.0]
+
+    def respond(frame):
+        return [] if loop.time() < muted[0] else ctl.respond(frame)
+
+    rig = gwrig.Rig(loop, responder=respond, disable_discovery=False, config={"enable_eavesdrop": False},
                     early_frames=[hello] if announce == "during" else None)
     await rig.start()
+    if mute:
+        muted[0] = loop.time() + 1.0 + mute
+        rig.transport.lose_echo = lambda frame: loop.time() < muted[0]
     ctl.t0 = loop.time()
     await asyncio.sleep(1.0)
     if announce != "during":
@@ -256,6 +268,9 @@ def run(chk: Check) -> None:
     zs = {f"{i:02X}": {"class": ("0A", "11")[i % 2], "sensor": f"34:{4000 + i:06d}", "actuators": [f"13:{4100 + 10 * i + j:06d}" for j in range(4)]}
           for i in range(12)}
     big = {"zones": zs, "dhw": {"sensor": "07:004500", "hotwater_valve": "13:004501", "heating_valve": "13:004502"}, "app": "13:004503"}
+    # the stick falls silent for half a minute just as discovery begins: everything is learnt at a later round all the same
+    for m in (25, 40):
+        jobs.append((base, [set()], 2, f"mute:{m}", "big"))
     jobs.append((big, [set()], 2, "after", "big"))
     jobs.append((big, [{"000C/0508", "000C/000D"}, set()], 3, "after", "big"))
     for ep in range(n_ep):
